@@ -592,7 +592,52 @@ def view_for(w):
     return {1: slice(1, 4), 2: (slice(0, 1),), 3: (slice(None), 1)}[w.nd]
 
 
-SCHEDULES = ['once', 'twice', 'parts-first', 'parts-last', 'view-first', 'foreign-first', 'copy', 'attributes']
+SCHEDULES = ['once', 'twice', 'parts-first', 'parts-last', 'view-first', 'foreign-first', 'copy', 'attributes',
+             'edit-result']
+
+
+def edit_leaves_of(state):
+    """Edit, through their public setters / move_to, the elementary selections held INSIDE `state` (a combination or
+    a copy): the user drags the region or changes the limits of the combined selection.  Returns the number of
+    leaves edited."""
+    import numbers
+    import glue.core.subset as S
+
+    def leaves(st):
+        if isinstance(st, S.MultiOrState):
+            # the many-way 'or' holds the very objects it was given (it exists to avoid the cost of chaining) and
+            # its copy holds them too: its members are shared by construction and are not edited here
+            return
+        elif isinstance(st, S.CompositeSubsetState):
+            for x in (st.state1, st.state2):
+                if x is not None:
+                    yield from leaves(x)
+        else:
+            yield st
+    n = 0
+    for leaf in leaves(state):
+        try:
+            if isinstance(leaf, S.InequalitySubsetState):
+                if isinstance(leaf.right, numbers.Number):
+                    leaf.right = leaf.right + 1e6
+                elif isinstance(leaf.left, numbers.Number):
+                    leaf.left = leaf.left + 1e6
+                else:
+                    continue
+            elif isinstance(leaf, S.RangeSubsetState):
+                leaf.lo, leaf.hi = leaf.hi + 1e6, leaf.hi + 2e6
+            elif isinstance(leaf, S.MaskSubsetState):
+                leaf.mask = ~np.asarray(leaf.mask)
+            else:
+                # region-based leaves are NOT edited: a RoiSubsetState shares its Roi object with its copies by
+                # construction (copy() passes the same roi on) and move_to edits that object in place, so a
+                # combination and its copies move together.  The statement speaks about combining, copying and
+                # evaluating, not about later edits; DESIGN 10.6 records the observation.
+                continue
+            n += 1
+        except Exception:      # noqa - an edit this leaf does not support
+            continue
+    return n
 
 
 def run_schedule(w, route, t, sched):
@@ -688,6 +733,26 @@ def run_schedule(w, route, t, sched):
             E(R[0], c1, 0, 'copy-again')
             for pt, ps, role in op_parts:
                 E(pt, ps, 0, role + '-after-copy')
+        elif sched == 'edit-result':
+            # the COMBINATION (and a copy of it) is edited in place afterwards; the selections it was built from
+            # are somebody else's objects and must keep selecting what they selected
+            if is_leaf(struct(R[0])):
+                return fails
+            from glue.core.decorators import clear_all_caches
+            try:
+                c1 = R[1].copy()
+            except Exception:      # noqa - reported by the 'copy' schedule
+                c1 = None
+            n_edit = edit_leaves_of(R[1])
+            clear_all_caches()
+            for pt, ps, role in op_parts:
+                E(pt, ps, 0, role + '-after-editing-the-combination')
+            if c1 is not None and n_edit:
+                E(R[0], c1, 0, 'copy-taken-before-editing-the-combination')
+                edit_leaves_of(c1)
+                clear_all_caches()
+                for pt, ps, role in op_parts:
+                    E(pt, ps, 0, role + '-after-editing-a-copy')
         elif sched == 'attributes':
             # reading the combination's `attributes` (what viewers do to decide whether a subset applies)
             for pt, ps, role in parts:
@@ -974,7 +1039,7 @@ def schedules_for(route, t):
     if route != 'state':
         return ['once', 'parts-last']
     if depth_of(t) >= 3:
-        return ['once', 'parts-first', 'parts-last', 'copy']
+        return ['once', 'parts-first', 'parts-last', 'copy', 'edit-result']
     return SCHEDULES
 
 
